@@ -28,7 +28,7 @@ LEVEL_NOTE = "Trusted: h5py reads; SHA-256 digests as bit-identity."
 def budget(tier):
     if tier == "quick":
         return dict(max_examples=240, workers=6, time_s=170, min_cases=80)
-    return dict(max_examples=2500, workers=16, time_s=1200, min_cases=600)
+    return dict(max_examples=2500, workers=16, time_s=1200, min_cases=160)
 
 
 @st.composite
